@@ -2,7 +2,8 @@
 from hypothesis import assume, strategies as st
 
 from vlib import jasm_io
-from vlib.gen_listing import OPERANDS, listings, instruction_body, norm_view, att_view
+from vlib.gen_listing import OPERANDS, listings, instruction_body, norm_view, att_view, present_addresses
+from vlib.matcheval import locate as locate_from, record_table
 from vlib.gen_pattern import describe_inst, describe_operand, is_hex_literal_name, lit_ok, random_item, substr
 from vlib.model import stream_record
 from vlib.refmatch import Ref
@@ -189,13 +190,14 @@ def cases(draw):
     for rec in L:
         rec[0] = format(a, "x")
         a += draw(st.integers(1, 7))
+    addr_tags = present_addresses(draw, L)
     for it in pattern:
         name = it if not isinstance(it, dict) else list(it)[0]
         assume(lit_ok(str(name), operand=False))
         if isinstance(it, dict):
             for o in it[name]:
                 assume(lit_ok(str(o)) or (mut == "hex-h-name" and is_hex_literal_name(str(o))))
-    return {"mut": mut, "listing": L, "pattern": pattern, "false_as_absent": draw(st.booleans())}
+    return {"mut": mut, "listing": L, "pattern": pattern, "false_as_absent": draw(st.booleans()), "addr_tags": addr_tags}
 
 
 def strategy(tier):
@@ -258,13 +260,17 @@ def evaluate(case):
             got = r_list[1]
             if bool(got) != exp:
                 ev.dev("verdict", mode="list", flags=flags, expected=exp, observed=got[:3])
+            table = record_table(records)
+            pos_ = 0
             for t in got:
-                ij = locate(t, records)
+                # reported matches come in stream order: with repeated addresses a text may occur twice, the scan position tells which
+                ij = locate_from(t, records, table, pos_)
                 if ij is None:
                     ev.dev("match-not-a-window", flags=flags, observed=t)
                     break
+                pos_ = ij[2] + len(t)
                 if ij[1] not in spans.get(ij[0], ()):
-                    ev.dev("match-not-contained", flags=flags, observed=t, span=list(ij))
+                    ev.dev("match-not-contained", flags=flags, observed=t, span=list(ij[:2]))
                     break
     # the same question once more in address-only presentation (one flag setting per case, chosen by the case itself): the
     # addresses are those of the first instruction of each window of the leftmost non-overlapping scan - also address 0
@@ -284,6 +290,7 @@ def evaluate(case):
         ev.dev("exception", mode="list/address-only", error=list(r_addr[1:]))
     if NV and NV[0][0] == "0" and want[:1] == ["0"]:
         ev.tags.append("match-at-address-0")
+    ev.tags += list(case.get("addr_tags", []))
     found_default = verdicts[0]
     ev.tags.append(f"mut={mut}")
     ev.tags.append("expect=found" if found_default else "expect=notfound")
